@@ -56,6 +56,8 @@ type Spec struct {
 	Handler   bool     `json:"handler"`
 	MITM      bool     `json:"mitm"`
 	AltCreds  bool     `json:"alt_creds"` // this proxy is configured with the OTHER credentials (two proxies in one process)
+	// the proxy is configured with a user name and an EMPTY password: 1 = `--basic-auth user` (url.User), 2 = `user:`
+	EmptyPass int `json:"empty_pass"`
 }
 
 const (
@@ -64,6 +66,9 @@ const (
 )
 
 func (s Spec) creds() (string, string) {
+	if s.EmptyPass != 0 {
+		return authUser, ""
+	}
 	if s.AltCreds {
 		return altUser, altPass
 	}
@@ -116,6 +121,9 @@ func (s Spec) proxySpec(rig *accessrig.Rig, seen map[string]bool) (accessrig.Pro
 	if s.Auth {
 		u, p := s.creds()
 		ps.Basic = url.UserPassword(u, p)
+		if s.EmptyPass == 1 {
+			ps.Basic = url.User(u)
+		}
 	}
 	var m forwarder.Matcher
 	if s.DenyRules != nil {
@@ -190,6 +198,40 @@ func b64(s string) string { return base64.StdEncoding.EncodeToString([]byte(s)) 
 type credVariant struct {
 	tag   string
 	lines [][2]string
+}
+
+// credVariantsFor: the variants a configuration is driven with.
+func credVariantsFor(s Spec) []credVariant {
+	if s.EmptyPass == 0 {
+		return credVariants()
+	}
+	// user name with an empty password: only base64("user:") carries exactly these credentials;
+	// base64("user") has NO colon and is not "user" + ":" + ""
+	pa := func(v string) [2]string { return [2]string{"Proxy-Authorization", v} }
+	u := authUser
+	return []credVariant{
+		{"absent", nil},
+		{"exact", [][2]string{pa("Basic " + b64(u+":"))}},
+		{"scheme-lower", [][2]string{pa("basic " + b64(u+":"))}},
+		{"no-colon", [][2]string{pa("Basic " + b64(u))}},
+		{"no-colon-lower", [][2]string{pa("basic " + b64(u))}},
+		{"colon-only", [][2]string{pa("Basic " + b64(":"))}},
+		{"scheme-only", [][2]string{pa("Basic ")}},
+		{"empty-value", [][2]string{pa("")}},
+		{"pass-suffix", [][2]string{pa("Basic " + b64(u+":x"))}},
+		{"pass-space", [][2]string{pa("Basic " + b64(u+": "))}},
+		{"pass-nul", [][2]string{pa("Basic " + b64(u+":\x00"))}},
+		{"user-prefix", [][2]string{pa("Basic " + b64(u[:len(u)-1]+":"))}},
+		{"user-prefix-no-colon", [][2]string{pa("Basic " + b64(u[:len(u)-1]))}},
+		{"user-suffix-no-colon", [][2]string{pa("Basic " + b64(u+"x"))}},
+		{"user-case-no-colon", [][2]string{pa("Basic " + b64(strings.ToUpper(u)))}},
+		{"raw", [][2]string{pa("Basic " + u)}},
+		{"bearer", [][2]string{pa("Bearer " + b64(u+":"))}},
+		{"repeat-bad-good", [][2]string{pa("Basic " + b64(u)), pa("Basic " + b64(u+":"))}},
+		{"repeat-good-bad", [][2]string{pa("Basic " + b64(u+":")), pa("Basic " + b64(u))}},
+		{"value-upper", [][2]string{pa(strings.ToUpper("Basic " + b64(u+":")))}},
+		{"token-lower", [][2]string{pa("Basic " + strings.ToLower(b64(u+":")))}},
+	}
 }
 
 func credVariants() []credVariant {
@@ -299,6 +341,11 @@ func hostVariants(aliases []string) []hostVariant {
 		hostVariant{"deny-idna", "\u24d4vil.test"}, hostVariant{"plain-idna", "\u24d4xample.test"},
 		hostVariant{"v6-unspec-zone", "[::%25lo]"}, hostVariant{"v6-loop-zone", "[::1%25lo]"},
 		hostVariant{"v6-mapped-loop-zone", "[::ffff:127.0.0.1%25lo]"})
+	// a trailing dot LOOK-ALIKE that IDNA maps to '.': the name becomes fully qualified only after the mapping
+	hs = append(hs, hostVariant{"lh-idna-ideographic-dot", "localhost\u3002"}, hostVariant{"lh-idna-fullwidth-dot", "LocalHost\uff0e"},
+		hostVariant{"lh-idna-halfwidth-dot", "localhost\uff61"}, hostVariant{"deny-idna-ideographic-dot", "evil.test\u3002"},
+		hostVariant{"deny-idna-fullwidth-dot", "sub.evil.test\uff0e"}, hostVariant{"alias-idna-halfwidth-dot", "devbox-01\uff61"},
+		hostVariant{"plain-idna-ideographic-dot", "example.test\u3002"}, hostVariant{"deny-idna-inner-dot", "evil\u3002test"})
 	// fully qualified spellings (trailing dot): the same name for the resolver and for TLS
 	hs = append(hs, hostVariant{"lh-dot", "localhost."}, hostVariant{"lh-dot-mixed", "LocalHost."}, hostVariant{"deny-dot", "evil.test."},
 		hostVariant{"deny-dot-sub", "sub.evil.test."}, hostVariant{"plain-dot", "example.test."}, hostVariant{"alias-dot", "devbox-01."},
@@ -490,6 +537,15 @@ func basicCases(r *rng.R, n int) ([]string, []any) {
 	}
 	for _, cv := range credVariants() {
 		emit(cv.lines, authUser, authPass)
+	}
+	// expected credentials with an empty password: a payload without colon is not "user" + ":" + ""
+	for _, cv := range credVariantsFor(Spec{EmptyPass: 1}) {
+		emit(cv.lines, authUser, "")
+	}
+	for _, u := range []string{"user", "u", "a:b", ""} {
+		for _, payload := range []string{b64(u), b64(u + ":"), b64(":"), b64(""), b64(u + "::")} {
+			emit([][2]string{{"Proxy-Authorization", "Basic " + payload}}, u, "")
+		}
 	}
 	users := []string{"user", "u", "User", "a:b", "", "ü", "user "}
 	passes := []string{"pass", "", "p:q", ":", "pa:ss", " ", "p\tq", "é"}
@@ -709,6 +765,15 @@ func allSpecs(tier string) []Spec {
 	id++
 	out = append(out, Spec{ID: id, DenyLocal: true, Handler: true, Upstream: true})
 	id++
+	// a user name with an EMPTY password (`--basic-auth user` / `user:`)
+	for _, ep := range []int{1, 2} {
+		out = append(out, Spec{ID: id, Auth: true, EmptyPass: ep})
+		id++
+		out = append(out, Spec{ID: id, Auth: true, EmptyPass: ep, DenyLocal: true, DenyRules: denyRules, Upstream: true})
+		id++
+	}
+	out = append(out, Spec{ID: id, Auth: true, EmptyPass: 1, MITM: true})
+	id++
 	// degenerate time frames: an entry with an empty interval never matches; a list made only of such
 	// entries is still a configured list (it refuses everything), a mixed list behaves like its other entries
 	for _, tf := range [][]TF{{{1, 0, 0}}, {{2, 12, 12}, {6, 24, 24}}, {{2, 0, 0}, {2, 9, 17}}, {{2, 16, 16}, {2, 17, 17}}} {
@@ -727,9 +792,9 @@ func allSpecs(tier string) []Spec {
 
 func genRequests(r *rng.R, s Spec, aliases []string, budget int, originPort string) []ReqSpec {
 	var out []ReqSpec
-	exact := credVariants()[1]
+	cvs := credVariantsFor(s)
+	exact := cvs[1]
 	hvs := hostVariants(aliases)
-	cvs := credVariants()
 	mk := func(method string, hv hostVariant, port string, cv credVariant, form, version string) ReqSpec {
 		host := hv.host + port
 		if method == "CONNECT" {
@@ -936,7 +1001,7 @@ func main() {
 						}
 					}
 					good := ReqSpec{Method: "CONNECT", Host: "example.test:443", Form: "authority", Version: "1.1",
-						Headers: credVariants()[1].lines, CredTag: "exact", HostTag: "plain"}
+						Headers: credVariantsFor(s)[1].lines, CredTag: "exact", HostTag: "plain"}
 					for k, nth := 0, 0; k < len(inner); nth++ {
 						craw := good.raw()
 						craw.Inner = ""
@@ -967,8 +1032,13 @@ func main() {
 					// histories: an ACCEPTED request first, then wrong credentials — among them the right header value
 					// with its case folded — on the same connection, and each again on a connection of its own
 					cv := map[string]credVariant{}
-					for _, v := range credVariants() {
+					for _, v := range credVariantsFor(s) {
 						cv[v.tag] = v
+					}
+					for _, t := range []string{"value-lower", "token-upper", "token-swapcase"} {
+						if _, ok := cv[t]; !ok {
+							cv[t] = cv["value-upper"] // configurations with a reduced variant list
+						}
 					}
 					hq := func(method, host, tag string) ReqSpec {
 						form := "absolute"
